@@ -1,4 +1,4 @@
-import NetProto.Model.Tcp
+import NetProto.Model.TcpStack
 import Driver.Util
 namespace Driver.Tcp
 open Model.Tcp
@@ -28,35 +28,8 @@ def showSeg (s : OutSeg) : String :=
 
 def showSegs (l : List OutSeg) : String := if l.isEmpty then "-" else " ".intercalate (l.map showSeg)
 
-structure Cfg where
-  mtu : Nat := 1500
-  sack : Bool := false
-  rcvBuf : Nat := 1048576
-  sndBuf : Nat := 1048576
-deriving Inhabited
-
-structure St where
-  cfg : Cfg := {}
-  listening : Bool := false
-  cookieMode : Bool := false
-  /-- handshakes in progress, keyed by the peer's port -/
-  hs : List (Nat × Hs) := []
-  /-- cookies issued statelessly: (peer port, irs, cookie, mss index) -/
-  cookies : List (Nat × Nat × Nat × Nat) := []
-  /-- completed passive opens not yet picked up: (peer port, endpoint, segments queued for it, queue bytes used) -/
-  acceptQ : List (Nat × Ep × List InSeg × Nat) := []
-  eps : List (Nat × Ep) := []       -- (peer port, endpoint); index = endpoint id
-  /-- an active open in progress: endpoint id reserved, handshake -/
-  active : Option (Nat × Hs) := none
-deriving Inhabited
-
-def mssTable : List Nat := [536, 1300, 1440, 1460]
-def encodeMSS (mss : Nat) : Nat := if mss ≥ 1460 then 3 else if mss ≥ 1440 then 2 else if mss ≥ 1300 then 1 else 0
-
 def kv (toks : List String) (k : String) : Option Nat :=
   (toks.find? (·.startsWith (k ++ "="))).bind fun s => (s.drop (k.length + 1)).toString.toNat?
-
-def setEp (st : St) (i : Nat) (p : Nat) (e : Ep) : St := { st with eps := st.eps.set i (p, e) }
 
 def modelStep (st : St) (toks : List String) : St × String :=
   match toks with
@@ -70,155 +43,84 @@ def modelStep (st : St) (toks : List String) : St × String :=
   | ["tcp.connect", i, issS] =>
     match i.toNat?, (issS.drop 4).toString.toNat? with
     | some i, some iss =>
-      let h : Hs := { state := .synSent, active := true, flags := fSyn, iss := iss, rcvWnd := st.cfg.rcvBuf,
-                      rcvWndScale := findWndScale st.cfg.rcvBuf, sackEnabled := st.cfg.sack, mtu := st.cfg.mtu }
-      let pad := List.replicate (i + 1 - st.eps.length) (0, (default : Ep))
-      ({ st with active := some (i, h), eps := st.eps ++ pad }, "started " ++ showSegs [h.synSegment])
+      let (st', out) := connectStep st i iss
+      (st', "started " ++ showSegs out)
     | _, _ => (st, "bad-op")
   | "seg" :: sp :: dp :: fl :: sq :: ak :: wn :: op :: da :: rest =>
     match sp.toNat?, dp.toNat?, sq.toNat?, ak.toNat?, wn.toNat?, hexN op, hexN da with
-    | some sp, some _, some sq, some ak, some wn, some op, some da =>
+    | some sp, some dp, some sq, some ak, some wn, some op, some da =>
       let seg : InSeg := ⟨parseFlags fl, sq, ak, wn, op, da⟩
       let learnedIss := (kv rest "iss").getD 0
-      if dp != "8080" then
-        match replyWithReset seg with
-        | some r => (st, showSegs [r])
-        | none => (st, "-")
-      else
-      -- 1. a connected endpoint for this peer port
-      match st.eps.zipIdx.find? (fun ((p, e), _) => p == sp && sp != 0) with
-      | some ((_, e), i) =>
-        if e.done then
-          -- the endpoint stays registered until Close(): once its loop has ended, segments queue up unread
-          (st, "-")
-        else
-          let (e', out) := handleSegment e seg
-          (setEp st i sp e', showSegs out)
-      | none =>
-        -- 2. an active open in progress
-        match st.active with
-        | some (i, h) =>
-          let (h', out) := h.handle seg learnedIss
-          if h'.state == .completed then
-            let e := h'.toEp st.cfg.rcvBuf st.cfg.sndBuf
-            ({ (setEp st i sp e) with active := none }, showSegs out)
-          else if h'.state == .failed then
-            -- the endpoint stays registered in the error state
-            let e : Ep := { (default : Ep) with state := .error, hardError := h'.err, done := true }
-            ({ (setEp st i sp e) with active := none }, showSegs out)
-          else ({ st with active := some (i, h') }, showSegs out)
-        | none =>
-          -- 3. a passive handshake in progress for this peer port
-          match st.hs.find? (·.1 == sp) with
-          | some (_, h) =>
-            let (h', out) := h.handle seg learnedIss
-            let others := st.hs.filter (·.1 != sp)
-            if h'.state == .completed then
-              let e := newEp h'.iss (subS h'.ackNum 1) h'.synWnd h'.mss h'.sndWndScale h'.rcvWnd h'.effectiveRcvWndScale
-                h'.mtu st.cfg.rcvBuf st.cfg.sndBuf h'.sendTSOk h'.recentTS h'.sackPermitted
-              ({ st with hs := others, acceptQ := st.acceptQ ++ [(sp, e, [], 0)] }, showSegs out)
-            else if h'.state == .failed then ({ st with hs := others }, showSegs out)
-            else ({ st with hs := others ++ [(sp, h')] }, showSegs out)
-          | none =>
-            -- 4. the listener
-            if st.listening && (st.acceptQ.find? (·.1 == sp)).isNone then
-              if seg.flags == fSyn then
-                let so := Model.Header.parseSynOptions seg.opts false
-                if !st.cookieMode then
-                  let h : Hs := { state := .synRcvd, active := false, flags := fSyn ||| fAck, iss := learnedIss, ackNum := addS seg.seq 1,
-                                  rcvWnd := st.cfg.rcvBuf, sndWnd := seg.wnd, synWnd := seg.wnd, mss := so.mss, sndWndScale := so.ws,
-                                  rcvWndScale := findWndScale st.cfg.rcvBuf, sendTSOk := so.ts, recentTS := so.tsVal,
-                                  sackPermitted := st.cfg.sack && so.sackPermitted, sackEnabled := st.cfg.sack, mtu := st.cfg.mtu }
-                  -- the sender of the new endpoint was created from the SYN: its window is the SYN's
-                  ({ st with hs := st.hs ++ [(sp, h)] }, showSegs [h.synSegment])
-                else
-                  let o : OutSeg := ⟨fSyn ||| fAck, learnedIss, addS seg.seq 1, min st.cfg.rcvBuf 65535,
-                    makeSynOptions (st.cfg.mtu - 40) (-1) so.ts 0 so.tsVal false, []⟩
-                  ({ st with cookies := (sp, seg.seq, learnedIss, encodeMSS so.mss) :: st.cookies }, showSegs [o])
-              else if seg.flags == fAck then
-                -- the cookie carries the MSS index additively in its low bits and only "index < 4" is checked:
-                -- an acknowledgement k beyond (or before) the cookie with 0 <= index + k < 4 is accepted as a
-                -- cookie for another MSS
-                match st.cookies.find? (fun (p, irs, ck, mi) => p == sp && addS irs 1 == seg.seq &&
-                    (mi + sizeS (addS ck 1) seg.ack) % 4294967296 < 4) with
-                | some (_, irs, ck, mi) =>
-                  let popts := Model.Header.parseTCPOptions seg.opts
-                  let k := sizeS (addS ck 1) seg.ack
-                  let e := newEp (subS seg.ack 1) irs seg.wnd (mssTable.getD ((mi + k) % 4294967296) 536) (-1) st.cfg.rcvBuf 0 st.cfg.mtu st.cfg.rcvBuf st.cfg.sndBuf
-                    popts.ts popts.tsVal false
-                  ({ st with acceptQ := st.acceptQ ++ [(sp, e, [], 0)], cookies := st.cookies.filter (·.1 != sp) }, "-")
-                | none =>
-                  match replyWithReset seg with
-                  | some r => (st, showSegs [r])
-                  | none => (st, "-")
-              else if has seg.flags fAck && !has seg.flags fRst then
-                match replyWithReset seg with
-                | some r => (st, showSegs [r])
-                | none => (st, "-")
-              else (st, "-")
-            else if (st.acceptQ.find? (·.1 == sp)).isSome then
-              -- delivered but not yet picked up by Accept(): its loop is not running, segments wait in its
-              -- queue (bounded by twice the receive buffer, each segment counted with its header)
-              ({ st with acceptQ := st.acceptQ.map fun (p, e, q, used) =>
-                  if p == sp && used < 2 * e.rcvBufSize then (p, e, q ++ [seg], used + seg.data.length + 20)
-                  else (p, e, q, used) }, "-")
-            else
-              match replyWithReset seg with
-              | some r => (st, showSegs [r])
-              | none => (st, "-")
+      let (st', out) := segStep st sp dp seg learnedIss
+      (st', showSegs out)
     | _, _, _, _, _, _, _ => (st, "bad-op")
   | ["tcp.accept"] =>
-    match st.acceptQ with
-    | [] => (st, "operation-would-block -")
-    | (p, e, q, _) :: rest =>
-      -- the loop starts now and drains what was queued meanwhile
-      let (e', out) := handleSegments e q
-      ({ st with acceptQ := rest, eps := st.eps ++ [(p, e')] }, s!"ok:{st.eps.length} {showSegs out}")
+    match acceptStep st with
+    | none => (st, "operation-would-block -")
+    | some (st', i, out) => (st', s!"ok:{i} {showSegs out}")
   | ["tcp.write", i, h] =>
     match i.toNat?, hexN h with
     | some i, some d =>
-      match st.eps[i]? with
-      | some (p, e) =>
-        let (e', r, out) := appWrite e d
+      match writeStep st i d with
+      | some (st', r, out) =>
         let rs := match r with
           | .ok n => if n < d.length then s!"n={n}:operation-would-block" else s!"n={n}"
           | .error m => s!"n=0:{m}"
-        (setEp st i p e', rs ++ " " ++ showSegs out)
+        (st', rs ++ " " ++ showSegs out)
       | none => (st, "bad-op")
     | _, _ => (st, "bad-op")
   | ["tcp.read", i] =>
     match i.toNat? with
     | some i =>
-      match st.eps[i]? with
-      | some (p, e) =>
-        let (e', r, out) := appRead e
+      match readStep st i with
+      | some (st', r, out) =>
         let rs := match r with | .ok d => "data=" ++ toHexN d | .error m => m
-        (setEp st i p e', rs ++ " " ++ showSegs out)
+        (st', rs ++ " " ++ showSegs out)
       | none => (st, "bad-op")
     | none => (st, "bad-op")
   | ["tcp.shutdown", i, how] =>
     match i.toNat? with
     | some i =>
-      match st.eps[i]? with
-      | some (p, e) =>
-        if e.state != .connected then (st, "endpoint-not-connected -") else
-        if how == "w" then
-          let (e', out) := appShutdownWrite e
-          (setEp st i p e', "ok " ++ showSegs out)
-        else (st, "ok -")
-      | none => (st, "bad-op")
+      if how == "w" then
+        match shutdownStep st i with
+        | some (st', true, out) => (st', "ok " ++ showSegs out)
+        | some (st', false, _) => (st', "endpoint-not-connected -")
+        | none => (st, "bad-op")
+      else
+        match st.eps[i]? with
+        | some (_, e) => if e.state != .connected then (st, "endpoint-not-connected -") else (st, "ok -")
+        | none => (st, "bad-op")
     | none => (st, "bad-op")
-  | ["rto", i] =>
+  | "rto" :: i :: _ =>
     match i.toNat? with
     | some i =>
-      match st.eps[i]? with
-      | some (p, e) => let (e', out) := timerEvent e; (setEp st i p e', showSegs out)
+      match timerStep st i with
+      | some (st', out) => (st', showSegs out)
       | none => (st, "bad-op")
     | none => (st, "bad-op")
   | _ => (st, "bad-op")
 
+/-- which part of the stack handled the op: `h` listener / handshake / no socket, `a` accept, `e` an
+established endpoint. The check compares a per-property projection of the outputs chosen by this tag. -/
+def tagOf (st : St) (toks : List String) : String :=
+  match toks with
+  | "seg" :: sp :: dp :: _ =>
+    if dp != "8080" then "h" else
+    match sp.toNat? with
+    | some sp => if (st.eps.find? (fun (p, _) => p == sp && sp != 0)).isSome || (st.acceptQ.find? (·.1 == sp)).isSome then "e" else "h"
+    | none => "h"
+  | "tcp.accept" :: _ => "a"
+  | "tcp.write" :: _ => "e"
+  | "tcp.read" :: _ => "e"
+  | "tcp.shutdown" :: _ => "e"
+  | "rto" :: _ => "e"
+  | _ => "h"
+
 def step (oracleMode : Bool) (st : St) (line : String) : St × String :=
   if oracleMode then (st, "ok")
-  else modelStep st (line.splitOn " ")
+  else
+    let toks := line.splitOn " "
+    let (st', out) := modelStep st toks
+    (st', tagOf st toks ++ "|" ++ out)
 
 end Driver.Tcp
